@@ -1,0 +1,28 @@
+//go:build verif
+
+package reader
+
+import (
+	"sync/atomic"
+
+	"github.com/zilliztech/milvus-cdc/core/api"
+)
+
+// VerifYieldFunc is called at the instrumented points of innerHandleReplicateMsg:
+// "enter" (before the pack is handled), "computed" (the output pack is complete but not yet enqueued),
+// "enqueued" (after it has been put on the target channel) and "dropped" (no output pack).
+// src is the pack that was read, out the computed pack (nil for "enter"/"dropped").
+type VerifYieldFunc func(point string, targetPChannel string, src *api.ReplicateMsg, out *api.ReplicateMsg)
+
+var verifYieldFn atomic.Value
+
+// SetVerifYield installs (or with nil removes) the process-wide yield callback.
+func SetVerifYield(f VerifYieldFunc) {
+	verifYieldFn.Store(&f)
+}
+
+func verifYield(point string, targetPChannel string, src *api.ReplicateMsg, out *api.ReplicateMsg) {
+	if p, _ := verifYieldFn.Load().(*VerifYieldFunc); p != nil && *p != nil {
+		(*p)(point, targetPChannel, src, out)
+	}
+}
